@@ -12,6 +12,10 @@ type cfile struct {
 	sub  string
 	data []byte
 	bits []string // header field bits exercised ("len:17")
+	// the edit in concrete terms: bytes [cutAt, cutAt+cutLen) removed, insLen bytes inserted at cutAt,
+	// file cut at truncAt (-1: none). Flips and overwrites leave all offsets in place.
+	cutAt, cutLen, insLen int
+	truncAt              int
 }
 
 func clone(b []byte) []byte { return append([]byte(nil), b...) }
@@ -242,7 +246,7 @@ func (r *runner) refineDamage(c *caseRec, l *clog, data []byte, d dmgRec, rng *r
 	case "del":
 		s, e := l.spans[d.A-1].s, l.spans[d.B-1].s
 		x := append(clone(data[:s]), data[e:]...)
-		out = append(out, cfile{sub: fmt.Sprintf("delete bytes [%d,%d)", s, e), data: x})
+		out = append(out, cfile{sub: fmt.Sprintf("delete bytes [%d,%d)", s, e), data: x, cutAt: s, cutLen: e - s})
 	case "ins":
 		at := l.spans[d.A-1].s
 		// one or two garbage symbols can complete a partly real header ([A5][00] + real len, crc, payload is a
@@ -255,7 +259,7 @@ func (r *runner) refineDamage(c *caseRec, l *clog, data []byte, d dmgRec, rng *r
 		g := make([]byte, n)
 		fill(g, nil, d.G, rng)
 		x := append(append(clone(data[:at]), g...), data[at:]...)
-		out = append(out, cfile{sub: fmt.Sprintf("insert %d bytes at %d", n, at), data: x})
+		out = append(out, cfile{sub: fmt.Sprintf("insert %d bytes at %d", n, at), data: x, cutAt: at, insLen: n})
 	case "trunc":
 		sp := l.spans[d.A] // symbol d.A+1 is the first one cut; part of it may remain
 		cut := sp.s
@@ -265,11 +269,119 @@ func (r *runner) refineDamage(c *caseRec, l *clog, data []byte, d dmgRec, rng *r
 		if cut > len(data) {
 			cut = len(data)
 		}
-		out = append(out, cfile{sub: fmt.Sprintf("truncate to %d bytes", cut), data: clone(data[:cut])})
+		out = append(out, cfile{sub: fmt.Sprintf("truncate to %d bytes", cut), data: clone(data[:cut]), truncAt: cut})
 	default:
 		return nil, fmt.Errorf("unknown damage kind %q", d.K)
 	}
+	for i := range out {
+		if d.K != "trunc" {
+			out[i].truncAt = -1
+		}
+	}
 	return out, nil
+}
+
+// absDamaged applies the abstract damages to the abstract file; it returns the damaged symbol sequence and,
+// for every abstract position of the undamaged file, its new position (0: gone).
+func (r *runner) absDamaged(c *caseRec, l *clog) ([]int, []int) {
+	var A []int
+	for fi, e := range c.Log {
+		p := r.alpha[e].Payload
+		A = append(A, sM, sOP, sLen0+len(p), sCrc0+e)
+		A = append(A, p...)
+		_ = fi
+	}
+	pos := make([]int, len(A)+1)
+	for i := range pos {
+		pos[i] = i
+	}
+	for _, d := range c.Dmg {
+		switch d.K {
+		case "flip":
+			A[d.A-1] = d.G
+		case "over":
+			for q := d.A; q < d.B; q++ {
+				A[q-1] = patSym(d.G, q-d.A+1)
+			}
+		case "del":
+			A = append(append([]int{}, A[:d.A-1]...), A[d.B-1:]...)
+			for q := 1; q < len(pos); q++ {
+				switch {
+				case pos[q] >= d.A && pos[q] < d.B:
+					pos[q] = 0
+				case pos[q] >= d.B:
+					pos[q] -= d.B - d.A
+				}
+			}
+		case "ins":
+			g := make([]int, d.B)
+			for j := range g {
+				g[j] = patSym(d.G, j+1)
+			}
+			A = append(append(append([]int{}, A[:d.A-1]...), g...), A[d.A-1:]...)
+			for q := 1; q < len(pos); q++ {
+				if pos[q] >= d.A {
+					pos[q] += d.B
+				}
+			}
+		case "trunc":
+			A = A[:d.A]
+			for q := 1; q < len(pos); q++ {
+				if pos[q] > d.A {
+					pos[q] = 0
+				}
+			}
+		}
+	}
+	return A, pos
+}
+
+// faithful reports whether the concrete file keeps intact exactly the frames the abstract damaged file keeps
+// intact (a frame being located through its checksum field).  The abstraction is coarser than the bytes in a
+// few places - one symbol for a multi-byte run, one digit for a multi-digit length - so material spliced or
+// inserted next to a partly destroyed frame can complete it in one world and not in the other; such a
+// refinement says nothing about the code and is skipped.
+func (r *runner) faithful(c *caseRec, l *clog, f cfile) bool {
+	A, pos := r.absDamaged(c, l)
+	for i, e := range c.Log {
+		pl := r.alpha[e].Payload
+		want := append([]int{sM, sOP, sLen0 + len(pl), sCrc0 + e}, pl...)
+		absIntact := false
+		if np := pos[l.fstart[i]+3]; np >= 4 {
+			st := np - 4 // 0-based start of the would-be frame
+			if st+len(want) <= len(A) {
+				absIntact = true
+				for k := range want {
+					if A[st+k] != want[k] {
+						absIntact = false
+						break
+					}
+				}
+			}
+		}
+		conIntact := false
+		crcOff := l.starts[i] + 6
+		gone := false
+		switch {
+		case f.cutLen > 0 && crcOff >= f.cutAt && crcOff < f.cutAt+f.cutLen:
+			gone = true
+		case f.cutLen > 0 && crcOff >= f.cutAt+f.cutLen:
+			crcOff -= f.cutLen
+		case f.insLen > 0 && crcOff >= f.cutAt:
+			crcOff += f.insLen
+		}
+		if f.truncAt >= 0 && crcOff >= f.truncAt {
+			gone = true
+		}
+		fb := l.frames[i].bytes
+		if st := crcOff - 6; !gone && st >= 0 && st+len(fb) <= len(f.data) {
+			conIntact = string(f.data[st:st+len(fb)]) == string(fb)
+		}
+		if absIntact != conIntact {
+			return false
+		}
+	}
+	return true
 }
 
 // concreteFiles refines the (one or two) damages of a case.
@@ -288,7 +400,7 @@ func (r *runner) concreteFiles(c *caseRec, l *clog, rng *rand.Rand) ([]cfile, er
 			return nil, err
 		}
 		for _, g := range second {
-			out = append(out, cfile{sub: f.sub + " + " + g.sub, data: g.data, bits: append(append([]string{}, f.bits...), g.bits...)})
+			out = append(out, cfile{sub: f.sub + " + " + g.sub, data: g.data, bits: append(append([]string{}, f.bits...), g.bits...), truncAt: g.truncAt})
 		}
 	}
 	return out, nil
